@@ -179,7 +179,9 @@ class TransmissionGenerator:
             ]
             block_type = last_slice_type if i == (num_bursts - 1) else slice_type
             block = packet_type(
-                packet_type=block_type, data=userdata_slice, crc32=userdata_crc32
+                packet_type=block_type,
+                data=userdata_slice,
+                crc32=userdata_crc32 if i == (num_bursts - 1) else 0,
             )
             # TODO better burst from contained data init
             burst = Burst(burst_type=BurstTypes.DataAndControl)
